@@ -187,12 +187,15 @@ pub fn judge(spec: &Spec, u: Option<&HirSpec>, s: Option<&HirSpec>) -> Vec<Findi
             }
         }
     }
-    for (i, (pi, so)) in ops.iter().enumerate() {
-        let Some(o) = s.operations.get(i) else { continue };
-        if o.path != pi.path || o.method != so.method {
-            out.push(f("C06", "", format!("operation #{} is {} {} but the document has {} {}", i, o.method, o.path, so.method, pi.path)));
+    // the order of the operation table is not observable by any property: match by (path, verb)
+    let mut used = vec![false; s.operations.len()];
+    for (pi, so) in ops.iter() {
+        let Some(j) = (0..s.operations.len()).find(|&j| !used[j] && s.operations[j].path == pi.path && s.operations[j].method == so.method) else {
+            out.push(f("C06", "", format!("the document's operation {} {} has no extracted operation", so.method, pi.path)));
             continue;
-        }
+        };
+        used[j] = true;
+        let o = &s.operations[j];
         // ---------------- C05: declared inputs
         let mut declared: Vec<(String, Location, bool)> = vec![];
         for p in &so.params {
